@@ -72,7 +72,7 @@ pub fn check(tier: Tier) -> Check {
         also_rel: false,
         property: "C10",
         level: "model_checking",
-        rule: "R in {1,2,3} (announced in a bare CONNACK, and with Session Present = 1 among many other CONNECT/CONNACK settings): all histories of QoS 0/1/2 publishes, pings, subscribes, unsubscribes and acknowledgements (0x00, 0x10 and failing, for any outstanding operation) up to the stated depth; the same on the second connection of a Context whose first connection announced a different R; R = 65535 (absent / announced) across a session resume: histories, connection loss, reconnect, the acknowledgements of the re-sent packets, a fresh publish; a QoS 2 publish abandoned (future dropped, also while still queued) before its PUBREC, R in {1,2,3}, PUBREC with 0x00 / 0x10 / failing reasons in both forms, then probe publishes: the open exchange keeps its slot; R in {65535, absent, 300}: deterministic fill - refuse - drain - refill runs through the real client; accept/refuse decisions and the wire must equal the model's; non-trivial = a publish was refused for quota or a slot was freed by a failing acknowledgement".into(),
+        rule: "R in {1,2,3} (announced in a bare CONNACK, and with Session Present = 1 among many other CONNECT/CONNACK settings): all histories of QoS 0/1/2 publishes, pings, subscribes, unsubscribes and acknowledgements (0x00, 0x10 and failing, for any outstanding operation) up to the stated depth; the same on the second connection of a Context whose first connection announced a different R; R = 65535 (absent / announced) across a session resume: histories, connection loss, reconnect, the acknowledgements of the re-sent packets, a fresh publish; a QoS 2 publish abandoned (future dropped, also while still queued) before its PUBREC, R in {1,2,3}, PUBREC with 0x00 / 0x10 / failing reasons in both forms, then probe publishes: the open exchange keeps its slot; R in {65535, absent, 300}: deterministic fill - refuse - drain - refill runs through the real client; accept/refuse decisions and the wire must equal the model's; two open exchanges under one identifier value (C10/same-id); a first connection that ends with its quota used up and a publish requested before the next connect(); re-authentication between CONNACK and run() (flavour 10); retained publishes; value flavour; non-trivial = a publish was refused for quota or a slot was freed by a failing acknowledgement".into(),
         assumptions: vec!["conformant broker".into()],
         parts,
     }
